@@ -48,10 +48,16 @@ def verify_function(eng, qualname):
         if n not in names:
             raise ContractError("%s: contract parameter %s not in signature %s" % (qualname, n, names))
     nullable = set(c.ghost.get('nullable', ()))
+    params = dict(c.params)
+    for a in fdef.args.args + fdef.args.kwonlyargs:
+        # a parameter the contract does not know yet: plain data with an annotation keeps the function verifiable
+        if a.arg not in params and isinstance(a.annotation, ast.Name) and a.annotation.id in ('bool', 'int', 'float'):
+            params[a.arg] = {'bool': 'bool', 'int': 'int', 'float': 'real'}[a.annotation.id]
+            eng.assumed.add("parameter %s of %s is not in the contract: kind read from its annotation" % (a.arg, qualname))
     for n in names:
-        if n not in c.params:
+        if n not in params:
             raise ContractError("%s: parameter %s has no declared kind" % (qualname, n))
-        st.env[n] = make_param(eng, st, n, c.params[n], n in nullable)
+        st.env[n] = make_param(eng, st, n, params[n], n in nullable)
     st.env['_any_task_failed'] = vbool(False)       # ghost: set on paths on which a worker failure was observed
     f.entry_env = dict(st.env)
     f.entry_heap = st.heap.copy()
